@@ -373,6 +373,23 @@ def points_parity(prog, chk):
     afterwards only incremented per number"""
     b = prog.body("svgdx::element::SvgElement::bbox_raw")
     chk.touch(b)
+    # the separators: a split on a literal set of characters that counts the blank as a separator must count the
+    # other white space characters too (tab, newline, carriage return) - or the list is cut with split_whitespace
+    scope = [b] + [c_ for c_ in prog.closures_of(b)]
+    ws_split = any(bd.call_sites(lambda c: c.path.split("::")[-1] in ("split_whitespace", "split_ascii_whitespace") or c.path.endswith(("char::is_whitespace", "char::is_ascii_whitespace", "<impl char>::is_whitespace", "<impl char>::is_ascii_whitespace"))) for bd in scope)
+    for bd in scope:
+        for (x, t, c) in bd.call_sites(lambda c: c.path.startswith(("core::str::<impl str>::split", "core::str::<impl str>::rsplit")) and "char" in c.inst):
+            if len(t["args"]) < 2:
+                continue
+            ch = bd.chase(t["args"][1])
+            chars = None
+            if ch[0] == "rv" and ch[1].get("k") == "aggr" and ch[1].get("ak") == "array":
+                chars = {(op_const(o) or {}).get("char") for o in ch[1]["ops"]}
+            elif ch[0] == "const" and "char" in ch[1]:
+                chars = {ch[1]["char"]}
+            if chars and None not in chars and " " in chars and len(chars) > 1:
+                missing = sorted({"\t", "\n", "\r"} - chars)
+                chk.ob(not missing or ws_split, "A13.points-parity", "bbox_raw:separators", bd.where(x, t.get("line")), "a list cut at blanks is cut at every white space character", f"a number list in bbox_raw is cut at {sorted(chars)} only: a blank separates numbers but {missing!r} (tab / newline / carriage return, which SVG allows wherever a blank is allowed) do not - such a `points` list fails to parse, and the transform fails on plain SVG content")
     cands = set()
     for x, i, st in b.all_stmts():
         rv = st.get("rv") or {}
